@@ -5,7 +5,8 @@ holding a process.  After every update the hierarchy is compared with a referenc
 intermediate node; nothing else changes), node and process-object identities included, and the engine's
 process table with the process nodes of the hierarchy.
 
-Decided by the oracle only: Model/Struct.v has sources of length 1 only (DESIGN.md section 5, C09)."""
+Compared with Model/Struct.v (OpMoveP / OpMove from a hierarchy rendered by the harness: Corr/Structc.v HNest)
+and judged by the reference oracle."""
 import contextlib
 import copy
 import io
